@@ -2465,6 +2465,17 @@ static int __read_rstack(struct uftrace_data *handle, struct uftrace_task_reader
 			min_timestamp = perf->time;
 			source = PERF;
 		}
+		else if (perf->time == min_timestamp && source == USER &&
+			 perf->type == PERF_RECORD_SWITCH && !perf->u.ctxsw.out) {
+			/*
+			 * A task is back on the cpu before it runs: a sched-in event
+			 * precedes a user record with the same timestamp.  Otherwise
+			 * that record would work on the virtual schedule frame (an EXIT
+			 * would pop it, an ENTRY would be popped by the sched-in).
+			 * A sched-out event still follows the records of its time.
+			 */
+			source = PERF;
+		}
 	}
 
 	if (has_event_data(handle)) {
